@@ -257,7 +257,7 @@ class Optimizer:
             while index > -len(records) and not np.all(np.isfinite(records[index])):
                 index -= 1
             self._parameters.set_from_history(self._parameter_history, index)
-            if _vt.ENABLED: _vt.emit("fallback", opt=str(id(self)), index=-2, nh=self._parameter_history.number_of_records, x=_vt.free_digest(self._parameters), xr=_vt.free_digest(self._parameters, 12))  # noqa: E501,E701
+            if _vt.ENABLED: _vt.emit("fallback", opt=str(id(self)), index=index, nh=self._parameter_history.number_of_records, x=_vt.free_digest(self._parameters), xr=_vt.free_digest(self._parameters, 12))  # noqa: E501,E701
 
         result_args = {
             "success": success,
